@@ -24,6 +24,9 @@ func newScanner() *scanner {
 	return s
 }
 
+// maxExponent the largest exponent (in either direction) of a number.
+const maxExponent = 1 << 20
+
 func (s *scanner) Scan(value bytes.Bytes) (*Number, error) {
 	for i, c := range value {
 		s.index = i
@@ -73,6 +76,11 @@ func (s *scanner) setExp(value bytes.Bytes) error {
 	exp, err := value[s.expBegin:].ParseInt()
 	if err != nil {
 		return err
+	}
+	// The number is kept as a string of digits: an exponent of this size asks
+	// for more memory than there is (or overflows the lengths below).
+	if exp > maxExponent || exp < -maxExponent {
+		return fmt.Errorf("The exponent of the number %q is too large", value.String())
 	}
 	// example with negative exp: 12.34E-1 = 1.234; exp = -1; intLen = 2 + (-1) = 1
 	// example with positive exp: 12.34E+1 = 123.4; exp =  1; intLen = 2 + 1    = 3
